@@ -83,6 +83,21 @@ static inline std::string hexs(const uint8_t *p, size_t n, size_t maxn = 16)
     return s;
 }
 
+// the library's error stack, innermost last (for messages only; oracles never look at codes)
+static inline std::string herr()
+{
+    std::string s;
+    for (int l = 1; l <= 6; l++) {
+        int16 v = HEvalue(l);
+        if (v == DFE_NONE)
+            break;
+        if (!s.empty())
+            s += " <- ";
+        s += HEstring((hdf_err_code_t)v);
+    }
+    return s.empty() ? "no error recorded" : s;
+}
+
 // client scheduling for generators: weighted pick with bursts
 struct Sched {
     int    nclients, cur = 0;
